@@ -71,3 +71,24 @@ Proof.
          (EFullUpdate [("name", VS "dev1"); ("display_name", VS "slave side")] []).
   vm_compute. repeat split. left; reflexivity.
 Qed.
+
+(* (e) write_value, offline branch, did not drop the remote values still queued (everything else repaired): a value the slave
+   reported before the edit is popped by the next main-loop iteration into _cached_value, the very field that holds the pending
+   value: the last edit 7 is not what is pending at reconnect, 5 is (replayed: corpus/C13/value-written-offline-with-queued-
+   remote-values.json; reachable through the API by switching listening / polling off right after a burst of values) *)
+Definition cfg_queue_kept : cfg := mk_cfg true true true false.
+Definition ep_port : mport := mk_mport "x" [] [] (VZ 0) true (VZ 0) [] [] [].
+Definition ep_master : master := mk_master [ep_port] [] [] true false.
+Definition ep_steps : list ostep := [ORemote (EValueChange "x" (VZ 5)); OWriteValue "x" (VZ 7); OTick].
+
+Lemma C13_offline_write_keeps_queue_refuted :
+  nothing_pending ep_master /\
+  Forall (fun p => mp_queue p = [] /\ mp_enabled p = true) (m_ports ep_master) /\
+  In (IPortValue "x" (VZ 7)) (last_edits ep_steps) /\
+  pending_items (orun cfg_queue_kept ep_steps ep_master) = [IPortValue "x" (VZ 5)] /\
+  pending_items (orun cfg_fixed ep_steps ep_master) = [IPortValue "x" (VZ 7)].
+Proof.
+  split; [split; [reflexivity|repeat constructor]|].
+  split; [repeat constructor|].
+  split; [left; reflexivity|]. vm_compute. split; reflexivity.
+Qed.
